@@ -231,6 +231,7 @@ def run_shard(ctx):
 def replay(record):
     from ..runner import Ctx
     ctx = Ctx("C12", "quick", 0, 0, 1, collect=True)
+    ctx.replaying = True
     run_history(ctx, {"spec": record["spec"], "ops": record["ops"], "seed": record.get("seed", 0)})
     if ctx.violations:
         b, (sz, rec) = next(iter(ctx.violations.items()))
